@@ -100,6 +100,14 @@ NameChars == {97, 98, 99, 120, 49, 50, Dash, Under}   \* a b c x 1 2 - _ : canno
 GoodOpt(t)  == /\ Len(t) >= 3 /\ t[3] # Dash
                /\ \A i \in 3..Len(t) : t[i] \in NameChars
 GoodWord(t) == t = <<>> \/ t[1] # Dash
+\* A token in value position (directly after a custom --name) may also start with a single
+\* dash -- a negative number, a lone "-": the documented rule is "followed by a token that
+\* does not start with `--`".  Its characters are restricted to ones click cannot read as
+\* a short option of the command itself (-o, -i, -h): digits, '.', a b c x.
+DashValueChars == {46} \cup 48..57 \cup {97, 98, 99, 120}
+GoodValue(t) == \/ GoodWord(t)
+                \/ (t[1] = Dash /\ (Len(t) = 1 \/ t[2] # Dash) /\ \A i \in 2..Len(t) : t[i] \in DashValueChars)
+IsValuePos(ts, i) == i > 1 /\ IsOpt(ts[i - 1]) /\ ~IsOpt(ts[i])
 \* model files carry the extension of the carrier language (needed when the language is deduced)
 FileExt    == <<46, 118, 116, 109>>                          \* .vtm
 HasExt(t)  == Len(t) > Len(FileExt) /\ SubSeq(t, Len(t) - Len(FileExt) + 1, Len(t)) = FileExt
@@ -114,7 +122,9 @@ ArgvInFragment(cmd, mode, argv, fnames) ==
      THEN \A i \in 1..Len(argv) : argv[i] \in fnames
      ELSE LET own == Own(argv)
               s   == Scan(own, <<>>, <<>>, {})
-          IN /\ \A i \in 1..Len(own) : IF IsOpt(own[i]) THEN GoodOpt(own[i]) ELSE GoodWord(own[i])
+          IN /\ \A i \in 1..Len(own) : IF IsOpt(own[i]) THEN GoodOpt(own[i])
+                                       ELSE IF IsValuePos(own, i) THEN GoodValue(own[i])
+                                       ELSE GoodWord(own[i])
              /\ \A i \in 1..Len(s.files) : s.files[i] \in fnames        \* existing model files only
              /\ s.files = <<>> => (mode = "language" /\ s.args # <<>>)  \* model-less run: explicit language
 
